@@ -68,7 +68,13 @@ def scripted_programs(bpc):
          ["removetree", "/"], ["listdir", "/"]],
         # ... and with sub-directories, followed by new entries
         [["makedir", "/x"], ["create", "/x/in x.txt"], ["open", "a", "/TOP.BIN", "w"], ["write", "a", "54" * (2 * bpc)], ["hclose", "a"], ["makedir", "/x/y"],
-         ["removetree", "/"], ["listdir", "/"], ["create", "/after the flood.txt"], ["listdir", "/"]],        # long-name sets that lie ACROSS the cluster boundaries of a directory of several clusters when the volume is closed (4 slots each behind
+         ["removetree", "/"], ["listdir", "/"], ["create", "/after the flood.txt"], ["listdir", "/"]],        # calls that change ONE time stamp only, the access date alone among them (it has no time field), as the last thing that happens to
+        # their directories (C03-m8: "nothing changed" decided by the fields that have a time)
+        [["create", "/acc.txt"], ["makedir", "/ts"], ["create", "/ts/only accessed.txt"], ["create", "/ts/only created.txt"],
+         ["setinfo", "/ts/only accessed.txt", None, None, 1709251200, None, None, (2024, 3, 1, 0, 0, 0)],
+         ["setinfo", "/ts/only created.txt", 1709251200, None, None, (2024, 3, 1, 0, 0, 0), None, None],
+         ["setinfo", "/acc.txt", None, None, 1717200000, None, None, (2024, 6, 1, 0, 0, 0)], ["getinfo", "/acc.txt"], ["getinfo", "/ts/only accessed.txt"]],
+        # long-name sets that lie ACROSS the cluster boundaries of a directory of several clusters when the volume is closed (4 slots each behind
         # '.' and '..': slots 14..17, 30..33, ...), read again by the second session (C06-m7: the reader's long-name accumulator was not carried
         # from one cluster of a directory to the next)
         [["makedir", "/q"]] + [["create", f"/q/quarterly report number {i:02d} (final).txt"] for i in range(36)] + [["listdir", "/q"]],
@@ -209,7 +215,7 @@ def run_histories(ctx, oracles, nprog, nops, kind="namespace", vol_filter=None, 
                     case = history.Case(label, img, progs[si] + ([["closefs"]] if add_close else []), mount=mnt, meta=meta)
                     r = history.run_case(ctx, case, oracles=oracles, model=m, use_model=use_model, remount_every=remount_every)
                     ctx.dist["scripted"] += 1
-                    if add_close and si % 2 == 0:
+                    if add_close and (si % 2 == 0 or si >= len(progs) - 2):      # (the last two programs are there FOR their second session)
                         second_session(ctx, case, r, oracles, m, use_model, remount_every)
         # (the fixed cases before the random programs: they must not fall victim to the time budget)
         if fill is None:
